@@ -258,13 +258,22 @@ func c49Check(tb ev.TB, rec *ev.Rec, c *c49Case, e2e *c49Rig) {
 		}
 		var msg *ref.Message
 		if e2e != nil {
-			x := e2e.exchange(c)
+			x, rigTrouble := e2e.exchangeRobust(c)
+			if rigTrouble {
+				classes = append(classes, "e2e-inconclusive-rig-5xx")
+				rec.Excluded("e2e-inconclusive-rig-5xx")
+				return
+			}
 			if x.timeout {
 				rec.Excluded("e2e-inconclusive")
 				return
 			}
 			if x.msg == nil {
-				rec.Fail(tb, "rewrite/not-forwarded", c, "request was not forwarded to the backend (client got status %d)", x.status)
+				if x.status >= 500 && !c49ModuleForwards(ms, c) {
+					rec.Excluded("e2e-5xx-agrees-with-module-stage")
+					return
+				}
+				rec.Fail(tb, "rewrite/not-forwarded", c, "request was not forwarded to the backend (client got status %d, every retry; the same request without rules is forwarded)", x.status)
 				return
 			}
 			msg = x.msg
@@ -402,13 +411,22 @@ func c49Check(tb ev.TB, rec *ev.Rec, c *c49Case, e2e *c49Rig) {
 		var msg *ref.Message
 		var obsRsp map[string][]string
 		if e2e != nil {
-			x := e2e.exchange(c)
+			x, rigTrouble := e2e.exchangeRobust(c)
+			if rigTrouble {
+				classes = append(classes, "e2e-inconclusive-rig-5xx")
+				rec.Excluded("e2e-inconclusive-rig-5xx")
+				return
+			}
 			if x.timeout {
 				rec.Excluded("e2e-inconclusive")
 				return
 			}
 			if x.msg == nil {
-				rec.Fail(tb, "header/not-forwarded", c, "request was not forwarded to the backend (client got status %d)", x.status)
+				if x.status >= 500 && !c49ModuleForwards(ms, c) {
+					rec.Excluded("e2e-5xx-agrees-with-module-stage")
+					return
+				}
+				rec.Fail(tb, "header/not-forwarded", c, "request was not forwarded to the backend (client got status %d, every retry; the same request without rules is forwarded)", x.status)
 				return
 			}
 			msg, obsRsp = x.msg, x.rsp
@@ -543,13 +561,22 @@ func c49Check(tb ev.TB, rec *ev.Rec, c *c49Case, e2e *c49Rig) {
 	case "redirect":
 		redirect, status, loc, open, cmd := redirectModel(c.Rules, c.Req.Host, c.Req.Target)
 		if e2e != nil {
-			x := e2e.exchange(c)
+			x, rigTrouble := e2e.exchangeRobust(c)
+			if rigTrouble {
+				classes = append(classes, "e2e-inconclusive-rig-5xx")
+				rec.Excluded("e2e-inconclusive-rig-5xx")
+				return
+			}
 			if x.timeout {
 				rec.Excluded("e2e-inconclusive")
 				return
 			}
 			if !redirect {
 				classes = append(classes, "not-matched")
+				if x.msg == nil && x.status >= 500 && !c49ModuleForwards(ms, c) {
+					rec.Excluded("e2e-5xx-agrees-with-module-stage")
+					return
+				}
 				if x.msg == nil || x.status != 200 {
 					rec.Fail(tb, "redirect/unexpected", c, "no rule matches but the request was not forwarded (status %d)", x.status)
 				}
@@ -619,6 +646,39 @@ func c49Check(tb ev.TB, rec *ev.Rec, c *c49Case, e2e *c49Rig) {
 			rec.Excluded("known-finding")
 		}
 	}
+}
+
+// c49ModuleForwards: does the module-level stage say the case's request goes on to a
+// backend (module verdict GoOn and the request writable)? Used to judge an end-to-end
+// 5xx: if the module stage does not forward either, both stages agree and the module
+// stage is the one that reports.
+func c49ModuleForwards(ms *c49Mods, c *c49Case) bool {
+	if err, _ := c49Load(ms, c); err != nil {
+		return false
+	}
+	req, err := buildReq(&c.Req, "p")
+	if err != nil {
+		return false
+	}
+	req.LogId = "log-4711"
+	req.Route.ClusterName = "cluster_x"
+	goOn := false
+	if p := ev.Try(func() {
+		var ret int
+		switch c.Mod {
+		case "rewrite":
+			ret, _ = ms.rewrite.filterRequest(bfe_module.HandleAfterLocation, req)
+		case "header":
+			ret, _ = ms.header.filterRequest(bfe_module.HandleAfterLocation, req)
+		default:
+			ret, _ = ms.redirect.filterRequest(bfe_module.HandleFoundProduct, req)
+		}
+		goOn = ret == bfe_module.BfeHandlerGoOn
+	}); p != nil || !goOn {
+		return false
+	}
+	_, _, err = toBackend(req)
+	return err == nil
 }
 
 func c49RedirectKey(c *c49Case, cmd, rawQuery string) string {
@@ -1073,6 +1133,13 @@ func TestC49(t *testing.T) {
 			c49Check(rt, rec, c, rig)
 		}
 	})
+	rec.Set("e2e_exchanges", int64(rig.total))
+	rec.Set("e2e_rig_5xx", int64(rig.rig5xx))
+	rec.Set("e2e_5xx_retries", int64(rig.retries))
+	if !t.Failed() && rig.total >= 20 && rig.rig5xx*5 > rig.total {
+		// infrastructure, not a verdict on bfe: no VIOLATION line, the driver maps this to exit 2
+		t.Fatalf("harness: the end-to-end rig could not forward %d of %d requests even without rules (machine overloaded?): inconclusive", rig.rig5xx, rig.total)
+	}
 }
 
 var _ = bfe_basic.GlobalProduct
